@@ -315,7 +315,11 @@ def monitor_dispatch(check):
                     scan(h.body, inner)
     scan(lp.body, False)
     # the dispatch call: self._monitordict[...](entry) -- present in the loop
-    disp = [n for n in ast.walk(lp) if isinstance(n, ast.Call) and isinstance(n.func, ast.Subscript) and any(isinstance(x, ast.Attribute) and x.attr == "_monitordict" for x in ast.walk(n.func.value))]
+    # (directly, or through a local bound in the loop to the looked-up function)
+    from_reg = lambda e: any(isinstance(x, ast.Attribute) and x.attr == "_monitordict" for x in ast.walk(e))
+    bound = {t.id for n in ast.walk(lp) if isinstance(n, ast.Assign) and from_reg(n.value) and isinstance(n.value, (ast.Subscript, ast.Call)) for t in n.targets if isinstance(t, ast.Name)}
+    disp = [n for n in ast.walk(lp) if isinstance(n, ast.Call) and ((isinstance(n.func, (ast.Subscript, ast.Call)) and from_reg(n.func))
+                                                                     or (isinstance(n.func, ast.Name) and n.func.id in bound))]
     if not disp:
         check.violation("MON-DISPATCH", f.qualname, "no call of the registered monitor function inside the loop over the monitor dictionary", f.loc(), key="no-dispatch")
     elif exits:
@@ -457,6 +461,11 @@ def _mon_record(proj, tm, f):
                                     return sub_.get(x.id, x) if isinstance(x.ctx, ast.Load) else x
                             import copy
                             return inline_helpers(ast.fix_missing_locations(_Sub().visit(copy.deepcopy(body[0].value))), depth + 1)
+                        # several statements / paths that all return the same expression of the arguments
+                        from ..inline import as_expression
+                        r_ = as_expression(proj, m, list(n.args), ast.Name(id=sn, ctx=ast.Load()), tm)
+                        if r_ is not None:
+                            return inline_helpers(r_, depth + 1)
                 return n
         import copy
         return _Inl().visit(copy.deepcopy(t))
